@@ -510,3 +510,390 @@ Proof.
   unfold doc_ok, doc_serialize, doc_flat. intros H Hr. apply andb_true_iff in H. destruct H as [Hp He].
   rewrite write_chunks_concat by (auto using misc_head). rewrite concat_doc_chunks, !flat_map_map. reflexivity.
 Qed.
+
+(* ------------------------------------------------------------------------------------------ *)
+(* newline translation on write, line-end normalisation on read *)
+
+Definition linesep_ok (ls : str) : Prop := ls = [LF] \/ ls = [CR; LF] \/ ls = [CR].
+
+Lemma no_cr_cons c s : no_cr (c :: s) = true -> (c =? CR) = false /\ no_cr s = true.
+Proof. unfold no_cr. cbn [forallb]. intros H. apply andb_true_iff in H. destruct H as [H1 H2]. apply negb_true_iff in H1. auto. Qed.
+
+Lemma no_cr_app a b : no_cr (a ++ b) = (no_cr a && no_cr b)%bool.
+Proof. unfold no_cr. apply forallb_app. Qed.
+
+Lemma nl_in_plain c s : (c =? CR) = false -> nl_in (c :: s) = c :: nl_in s.
+Proof. intros H. cbn [nl_in]. rewrite H. reflexivity. Qed.
+
+Lemma nl_in_cr X : match X with c2 :: _ => (c2 =? LF) = false | [] => True end -> nl_in (CR :: X) = LF :: nl_in X.
+Proof.
+  intros H. cbn [nl_in]. change (CR =? CR) with true. cbv iota. destruct X as [|c2 r2]; [reflexivity|].
+  rewrite H. reflexivity.
+Qed.
+
+Lemma nl_in_crlf X : nl_in (CR :: LF :: X) = LF :: nl_in X.
+Proof. reflexivity. Qed.
+
+Lemma nl_in_out_with t s : t = [LF] \/ t = [CR; LF] \/ t = [CR] -> no_cr s = true ->
+  nl_in (flat_map (fun c => if c =? LF then t else [c]) s) = s.
+Proof.
+  intros Ht. induction s as [|c s IH]; intros H; [reflexivity|].
+  apply no_cr_cons in H. destruct H as [Hc Hs]. specialize (IH Hs). cbn [flat_map].
+  destruct (c =? LF) eqn:El.
+  - apply N.eqb_eq in El. subst c. destruct Ht as [ -> | [ -> | -> ] ].
+    + cbn [app]. rewrite nl_in_plain by reflexivity. rewrite IH. reflexivity.
+    + cbn [app]. rewrite nl_in_crlf, IH. reflexivity.
+    + cbn [app]. rewrite nl_in_cr; [rewrite IH; reflexivity|].
+      destruct s as [|c' s']; [exact I|]. cbn [flat_map]. destruct (c' =? LF) eqn:E'; cbn [app]; [reflexivity|exact E'].
+  - cbn [app]. rewrite nl_in_plain by assumption. rewrite IH. reflexivity.
+Qed.
+
+Theorem nl_in_out ls nl s : linesep_ok ls -> no_cr s = true -> nl_in (nl_out ls nl s) = s.
+Proof.
+  intros Hl Hs. unfold nl_out. apply nl_in_out_with; [|assumption].
+  destruct nl; cbn [nl_string]; auto.
+Qed.
+
+(* the declaration contains no "\n": newline translation leaves it alone *)
+Lemma nl_out_app ls nl a b : nl_out ls nl (a ++ b) = nl_out ls nl a ++ nl_out ls nl b.
+Proof. unfold nl_out. apply flat_map_app. Qed.
+
+Lemma nl_out_nolf ls nl s : forallb (fun c => negb (c =? LF)) s = true -> nl_out ls nl s = s.
+Proof.
+  unfold nl_out. induction s as [|c s IH]; cbn [forallb flat_map]; intros H; [reflexivity|].
+  apply andb_true_iff in H. destruct H as [H1 H2]. apply negb_true_iff in H1. rewrite H1, IH; auto.
+Qed.
+
+Lemma nl_out_decl ls nl enc : label_ok enc = true -> nl_out ls nl (decl_of enc) = decl_of enc.
+Proof.
+  unfold label_ok. intros H. apply andb_true_iff in H. destruct H as [_ H]. apply upper_label, label_no_lf in H.
+  apply nl_out_nolf. unfold decl_of. rewrite !forallb_app.
+  apply andb_true_iff; split; [reflexivity|]. apply andb_true_iff; split; [exact H|reflexivity].
+Qed.
+
+(* ------------------------------------------------------------------------------------------ *)
+(* no carriage return in the stream when there is none in the parts *)
+
+Lemma name_char_plain c : is_name_char c = true -> (c =? CR) = false.
+Proof.
+  intros H.
+  assert (Hc : 45 <= c).
+  { unfold is_name_char in H. repeat (apply orb_true_iff in H; destruct H as [H|H]);
+      try (apply andb_true_iff in H; destruct H as [H _]; apply N.leb_le in H; lia);
+      try (apply N.eqb_eq in H; lia). apply N.leb_le in H. lia. }
+  apply N.eqb_neq. unfold CR. lia.
+Qed.
+
+Lemma name_no_cr t : forallb is_name_char t = true -> no_cr t = true.
+Proof.
+  unfold no_cr. induction t as [|c t IH]; cbn [forallb]; intros H; [reflexivity|].
+  apply andb_true_iff in H. destruct H as [H1 H2]. rewrite (name_char_plain c H1), IH; auto.
+Qed.
+
+Lemma misc_no_cr n : misc_ok n = true -> no_cr (misc_str n) = true.
+Proof.
+  destruct n as [| |c|t c]; try discriminate; cbn [misc_ok misc_str]; intros H.
+  - apply andb_true_iff in H. destruct H as [_ H]. rewrite !no_cr_app, H. reflexivity.
+  - apply andb_true_iff in H. destruct H as [H Hc]. apply andb_true_iff in H. destruct H as [Ht _].
+    unfold pi_target_ok in Ht. apply andb_true_iff in Ht. destruct Ht as [Ht _].
+    apply andb_true_iff in Ht. destruct Ht as [_ Ht]. apply name_no_cr in Ht.
+    rewrite !no_cr_app, Ht, Hc. reflexivity.
+Qed.
+
+Lemma miscs_no_cr w1 w2 l : no_cr w1 = true -> no_cr w2 = true -> forallb misc_ok l = true ->
+  no_cr (flat_map (fun n => w1 ++ misc_str n ++ w2) l) = true.
+Proof.
+  intros H1 H2. induction l as [|n l IH]; cbn [forallb flat_map]; intros H; [reflexivity|].
+  apply andb_true_iff in H. destruct H as [Hn Hl]. rewrite !no_cr_app, H1, H2, (misc_no_cr n Hn), IH; auto.
+Qed.
+
+Lemma pnl_no_cr k : no_cr (pnl k) = true. Proof. destruct k; reflexivity. Qed.
+Lemma pnl_ws k : all_xml_ws (pnl k). Proof. destruct k; reflexivity. Qed.
+
+Lemma doc_flat_no_cr k enc d rootc :
+  label_ok enc = true -> doc_ok d = true -> no_cr rootc = true -> no_cr (doc_flat k enc d rootc) = true.
+Proof.
+  unfold label_ok, doc_ok, doc_flat. intros He Hd Hr.
+  apply andb_true_iff in He. destruct He as [_ He]. apply upper_label, label_no_cr in He.
+  apply andb_true_iff in Hd. destruct Hd as [Hp Hq].
+  pose proof (miscs_no_cr [] (pnl k) _ eq_refl (pnl_no_cr k) Hp) as Ep.
+  pose proof (miscs_no_cr (pnl k) [] _ (pnl_no_cr k) eq_refl Hq) as Eq.
+  cbn [app] in Ep. rewrite (flat_map_ext _ (fun n => pnl k ++ misc_str n)) in Eq
+    by (intros; rewrite app_nil_r; reflexivity).
+  unfold decl_of. rewrite !no_cr_app, He, Hr, Ep, Eq, pnl_no_cr. reflexivity.
+Qed.
+
+(* ------------------------------------------------------------------------------------------ *)
+(* the round trip *)
+
+Lemma filter_keep_ff l : filter (keep false false) l = l.
+Proof. induction l as [|n l IH]; cbn [filter]; [reflexivity|]. destruct n; cbn [keep negb]; rewrite IH; reflexivity. Qed.
+
+Lemma misc_str_len n : misc_ok n = true -> (1 <= length (misc_str n))%nat.
+Proof. destruct n; try discriminate; intros _; cbn; lia. Qed.
+
+Lemma miscs_len w1 w2 l : forallb misc_ok l = true ->
+  (length l <= length (flat_map (fun n => w1 ++ misc_str n ++ w2) l))%nat.
+Proof.
+  induction l as [|n l IH]; cbn [forallb flat_map length]; intros H; [lia|].
+  apply andb_true_iff in H. destruct H as [Hn Hl]. specialize (IH Hl). pose proof (misc_str_len n Hn).
+  rewrite !app_length. lia.
+Qed.
+
+Section RoundTrip.
+  Variable read_root : str -> option (node * str).
+  Variables (rootc : str) (rnode : node).
+  (* what is needed from the root layer, for this one root: C02 *)
+  Hypothesis Hread : forall rest, read_root (rootc ++ rest) = Some (rnode, rest).
+  Hypothesis Hshape : root_shape rootc = true.
+
+  Lemma parse_doc_flat rc rp k enc d :
+    label_ok enc = true -> doc_ok d = true ->
+    parse_doc_with read_root rc rp (doc_flat k enc d rootc)
+    = Ok (Some (upper enc),
+          {| prologue := filter (keep rc rp) (prologue d); root := rnode; epilogue := filter (keep rc rp) (epilogue d) |}).
+  Proof.
+    intros He Hd. unfold doc_ok in Hd. apply andb_true_iff in Hd. destruct Hd as [Hp Hq].
+    unfold parse_doc_with, doc_flat. rewrite parse_decl_of by assumption.
+    rewrite parse_misc_ws by apply pnl_ws.
+    pose proof (parse_misc_items rc rp [] (pnl k) [] (rootc ++ flat_map (fun n => pnl k ++ misc_str n) (epilogue d))
+                  eq_refl (pnl_ws k) eq_refl (stops_root _ _ Hshape) (prologue d)) as E1.
+    cbn [app] in E1. rewrite E1; [|assumption|].
+    2:{ pose proof (miscs_len [] (pnl k) _ Hp) as L. cbn [app] in L. rewrite !app_length. lia. }
+    rewrite Hread.
+    pose proof (parse_misc_items rc rp (pnl k) [] [] [] (pnl_ws k) eq_refl eq_refl stops_nil (epilogue d)) as E2.
+    cbn [app] in E2. rewrite app_nil_r in E2.
+    rewrite (flat_map_ext _ (fun n => pnl k ++ misc_str n)) in E2 by (intros; rewrite app_nil_r; reflexivity).
+    rewrite E2; [reflexivity|assumption|].
+    pose proof (miscs_len (pnl k) [] _ Hq) as L.
+    rewrite (flat_map_ext _ (fun n => pnl k ++ misc_str n)) in L by (intros; rewrite app_nil_r; reflexivity). lia.
+  Qed.
+End RoundTrip.
+
+Section Document.
+  Variables (fmt bytes : Type).
+  Variable kind_of : fmt -> skind.
+  Variable ser_root : fmt -> node -> str.
+  Variable read_root : str -> option (node * str).
+  Variable norm : fmt -> node -> node.
+  Variable root_ok : fmt -> node -> Prop.
+  Variable supported : str -> bool.
+  Variable encode : str -> str -> option bytes.
+  Variable decode : bytes -> option str.
+
+  (* H_root: the root serializer / reader round trip (property C02), in the usual "with any rest" form *)
+  Hypothesis H_root : forall fo t rest, root_ok fo t -> read_root (ser_root fo t ++ rest) = Some (norm fo t, rest).
+  (* H_codec: Python's codec and the reader's decoder (which finds the encoding from the BOM / the
+     declaration at the very start of the stream) are mutually inverse on streams that start with a
+     declaration naming that codec *)
+  Hypothesis H_codec : forall enc body b, supported enc = true ->
+    encode enc (decl_of enc ++ body) = Some b -> decode b = Some (decl_of enc ++ body).
+
+  (* the premises on one document: what XML can hold next to the root (doc_ok), and what the
+     document level needs to know about the root's serialization *)
+  Definition doc_pre (fo : fmt) (d : doc) : Prop :=
+    doc_ok d = true /\ root_ok fo (root d) /\ root_shape (ser_root fo (root d)) = true
+    /\ no_cr (ser_root fo (root d)) = true.
+
+  (* str(document) and the character stream of write/save, re-read *)
+  Theorem roundtrip_chars enc ls nl fo d :
+    label_ok enc = true -> linesep_ok ls -> doc_pre fo d ->
+    parse_doc read_root (nl_in (nl_out ls nl (doc_serialize kind_of ser_root enc fo d)))
+    = Ok (Some (upper enc), norm_doc norm fo d).
+  Proof.
+    intros He Hl (Hd & Hok & Hs & Hc).
+    rewrite doc_serialize_flat by assumption.
+    rewrite nl_in_out by (auto using doc_flat_no_cr).
+    unfold parse_doc.
+    rewrite (parse_doc_flat read_root (ser_root fo (root d)) (norm fo (root d))); try assumption.
+    - rewrite !filter_keep_ff. reflexivity.
+    - intros rest. apply H_root. assumption.
+  Qed.
+
+  Theorem roundtrip_str nl fo d :
+    doc_pre fo d ->
+    parse_doc read_root (nl_in (doc_str kind_of ser_root nl fo d)) = Ok (Some (upper L_UTF8), norm_doc norm fo d).
+  Proof. intros H. unfold doc_str. apply roundtrip_chars; [reflexivity|left; reflexivity|assumption]. Qed.
+
+  (* Document.write / save, re-read from the written bytes *)
+  Theorem roundtrip_bytes enc ls nl fo d b :
+    supported enc = true -> label_ok enc = true -> linesep_ok ls -> doc_pre fo d ->
+    doc_write kind_of ser_root encode ls enc nl fo d = Some b ->
+    doc_read read_root decode b = Ok (Some (upper enc), norm_doc norm fo d).
+  Proof.
+    intros Hsup He Hl Hpre Hw. pose proof Hpre as (Hd & Hok & Hs & Hc).
+    unfold doc_write in Hw. unfold doc_read.
+    assert (Hb : decode b = Some (nl_out ls nl (doc_serialize kind_of ser_root enc fo d))).
+    { rewrite doc_serialize_flat in * by assumption. unfold doc_flat in *.
+      rewrite nl_out_app, nl_out_decl in * by assumption. apply H_codec; assumption. }
+    rewrite Hb. apply roundtrip_chars; assumption.
+  Qed.
+
+  (* the stream starts with the declaration, which names the encoding that was asked for (the codec
+     used): first in the stream, before and after newline translation, and read back as such *)
+  Theorem declared enc ls nl fo d :
+    label_ok enc = true -> doc_ok d = true -> root_shape (ser_root fo (root d)) = true ->
+    exists rest,
+      nl_out ls nl (doc_serialize kind_of ser_root enc fo d) = decl_of enc ++ rest
+      /\ parse_decl (decl_of enc ++ rest) = Ok (Some (upper enc), rest)
+      /\ label_eqb (upper enc) enc = true.
+  Proof.
+    intros He Hd Hs. rewrite doc_serialize_flat by assumption. unfold doc_flat.
+    rewrite nl_out_app, nl_out_decl by assumption. eexists. split; [reflexivity|].
+    split; [apply parse_decl_of; assumption|apply label_eqb_upper].
+  Qed.
+
+  (* order: declaration, prologue nodes, root, epilogue nodes, separated by the serializer's newline only *)
+  Theorem order enc fo d :
+    doc_ok d = true -> root_shape (ser_root fo (root d)) = true ->
+    doc_serialize kind_of ser_root enc fo d
+    = decl_of enc ++ pnl (kind_of fo)
+      ++ flat_map (fun n => misc_str n ++ pnl (kind_of fo)) (prologue d)
+      ++ ser_root fo (root d)
+      ++ flat_map (fun n => pnl (kind_of fo) ++ misc_str n) (epilogue d).
+  Proof. intros. rewrite doc_serialize_flat by assumption. reflexivity. Qed.
+End Document.
+
+(* ------------------------------------------------------------------------------------------ *)
+(* parser options: dropping comments / PIs = filtering the parse without the options *)
+
+Definition strip_misc (rc rp : bool) (x : list node * str) : list node * str :=
+  (filter (keep rc rp) (fst x), snd x).
+
+Lemma parse_misc_strip rc rp f : forall s,
+  parse_misc rc rp f s = map_res (strip_misc rc rp) (parse_misc false false f s).
+Proof.
+  induction f as [|f IH]; intros s; [reflexivity|].
+  rewrite !parse_misc_S. cbv zeta.
+  destruct (py_prefix L_COMMENT_OPEN (skip_ws s)).
+  - destruct (read_until L_COMMENT_CLOSE (skipn 4 (skip_ws s))) as [[c r]|]; [|reflexivity].
+    destruct (comment_ok c); [|reflexivity]. rewrite (IH r).
+    destruct (parse_misc false false f r) as [[l r']| |]; cbn [map_res]; try reflexivity.
+    unfold strip_misc. cbn [fst snd filter keep]. destruct rc; reflexivity.
+  - destruct (py_prefix L_PI_OPEN (skip_ws s)); [|reflexivity].
+    destruct (read_pi (skipn 2 (skip_ws s))) as [[[t c] r]|]; [|reflexivity].
+    destruct (str_eqb (lower t) L_xml); [reflexivity|]. rewrite (IH r).
+    destruct (parse_misc false false f r) as [[l r']| |]; cbn [map_res]; try reflexivity.
+    unfold strip_misc. cbn [fst snd filter keep]. destruct rp; reflexivity.
+Qed.
+
+Section Strip.
+  Variables (rc rp : bool).
+  (* the element reader without and with the two options; H_strip_root is the part of the claim that
+     lives below the document level (libxml2), established by the correspondence check only *)
+  Variables (read_root read_root_opt : str -> option (node * str)).
+  Hypothesis H_strip_root : forall s,
+    read_root_opt s = match read_root s with Some (n, r) => Some (strip_node rc rp n, r) | None => None end.
+
+  Theorem strip_parse s :
+    parse_doc_with read_root_opt rc rp s
+    = map_res (fun x => (fst x, strip_doc rc rp (snd x))) (parse_doc_with read_root false false s).
+  Proof.
+    unfold parse_doc_with. destruct (parse_decl s) as [[e s1]| |]; try reflexivity.
+    rewrite parse_misc_strip. destruct (parse_misc false false (S (length s1)) s1) as [[pro s2]| |]; try reflexivity.
+    cbn [map_res strip_misc fst snd]. rewrite H_strip_root. destruct (read_root s2) as [[r s3]|]; [|reflexivity].
+    rewrite parse_misc_strip. destruct (parse_misc false false (S (length s3)) s3) as [[epi s4]| |]; try reflexivity.
+    cbn [map_res strip_misc fst snd]. destruct (null s4); reflexivity.
+  Qed.
+End Strip.
+
+(* "exactly those nodes": nothing of the dropped kind is left next to the root or anywhere in it,
+   and with both options off nothing is dropped *)
+Lemma filter_keep_no_comment rp l : forallb (fun n => negb (is_comment n)) (filter (keep true rp) l) = true.
+Proof. induction l as [|n l IH]; [reflexivity|]. destruct n; cbn; try assumption. destruct rp; cbn; assumption. Qed.
+Lemma filter_keep_no_pi rc l : forallb (fun n => negb (is_pi n)) (filter (keep rc true) l) = true.
+Proof. induction l as [|n l IH]; [reflexivity|]. destruct n; cbn; try assumption. destruct rc; cbn; assumption. Qed.
+Lemma filter_keep_others rc rp l :
+  filter (fun n => negb (is_misc n)) (filter (keep rc rp) l) = filter (fun n => negb (is_misc n)) l.
+Proof.
+  induction l as [|n l IH]; [reflexivity|].
+  destruct n; cbn [filter keep is_misc negb]; rewrite ?IH; try reflexivity.
+  - destruct rc; cbn [negb filter is_misc]; rewrite ?IH; reflexivity.
+  - destruct rp; cbn [negb filter is_misc]; rewrite ?IH; reflexivity.
+Qed.
+(* the kept comments / PIs are all of them, in order *)
+Lemma filter_keep_comments rc l : filter is_comment (filter (keep rc true) l) = if rc then [] else filter is_comment l.
+Proof.
+  induction l as [|n l IH]; [destruct rc; reflexivity|].
+  destruct n; cbn [filter keep is_comment negb]; try assumption.
+  destruct rc; cbn [negb filter is_comment]; rewrite IH; reflexivity.
+Qed.
+Lemma filter_keep_pis rp l : filter is_pi (filter (keep true rp) l) = if rp then [] else filter is_pi l.
+Proof.
+  induction l as [|n l IH]; [destruct rp; reflexivity|].
+  destruct n; cbn [filter keep is_pi negb]; try assumption.
+  destruct rp; cbn [negb filter is_pi]; rewrite IH; reflexivity.
+Qed.
+
+(* ------------------------------------------------------------------------------------------ *)
+(* the root setter *)
+
+Lemma drain_addprevious l acc : drain addprevious l acc = acc ++ l.
+Proof.
+  revert acc. induction l as [|x l IH]; intros acc; cbn [drain]; [rewrite app_nil_r; reflexivity|].
+  rewrite IH. unfold addprevious. rewrite <- app_assoc. reflexivity.
+Qed.
+Lemma drain_addnext l acc : drain addnext l acc = rev l ++ acc.
+Proof.
+  revert acc. induction l as [|x l IH]; intros acc; cbn [drain]; [reflexivity|].
+  rewrite IH. unfold addnext. cbn [rev]. rewrite <- app_assoc. reflexivity.
+Qed.
+
+Theorem copy_root_siblings_spec src tgt :
+  copy_root_siblings src tgt
+  = {| prologue := prologue tgt ++ prologue src; root := root tgt; epilogue := epilogue src ++ epilogue tgt |}.
+Proof.
+  unfold copy_root_siblings, pop_order, stack_prev, stack_next.
+  rewrite drain_addprevious, drain_addnext, !rev_involutive. reflexivity.
+Qed.
+
+Theorem set_root_keeps d n :
+  is_tag n = true ->
+  set_root d (loose n) = Some {| prologue := prologue d; root := n; epilogue := epilogue d |}.
+Proof.
+  intros H. unfold set_root. cbn [loose root]. rewrite H, copy_root_siblings_spec.
+  cbn [loose prologue epilogue root app]. rewrite app_nil_r. reflexivity.
+Qed.
+
+Theorem set_root_rejects d tgt : is_tag (root tgt) = false -> set_root d tgt = None.
+Proof. intros H. unfold set_root. rewrite H. reflexivity. Qed.
+
+(* ------------------------------------------------------------------------------------------ *)
+(* the toy root layer satisfies what the theorems ask of a root layer *)
+
+Lemma toy_read_ser k t rest : toy_root_ok t = true -> toy_read (toy_ser k t ++ rest) = Some (toy_norm k t, rest).
+Proof.
+  destruct t as [ns name attrs kids| | |]; try discriminate. destruct name as [|c name]; [discriminate|].
+  unfold toy_ser, toy_norm, toy_name. cbn [toy_root_ok]. intros H. apply andb_true_iff in H. destruct H as [Hc Hn].
+  unfold toy_read. cbn [app]. rewrite <- app_assoc.
+  change (c :: name ++ [47; 62] ++ rest) with ((c :: name) ++ 47 :: 62 :: rest).
+  rewrite span_app; [reflexivity| |reflexivity]. cbn [forallb]. rewrite Hc, Hn. reflexivity.
+Qed.
+
+Lemma toy_shape k t : toy_root_ok t = true -> root_shape (toy_ser k t) = true /\ no_cr (toy_ser k t) = true.
+Proof.
+  destruct t as [ns name attrs kids| | |]; try discriminate. destruct name as [|c name]; [discriminate|].
+  unfold toy_ser, toy_name. cbn [toy_root_ok]. intros H. apply andb_true_iff in H. destruct H as [Hc Hn]. split.
+  - unfold root_shape. cbn [app].
+    assert (H1 : (c =? 33) = false /\ (c =? 63) = false).
+    { assert (45 <= c).
+      { unfold is_name_char in Hc. repeat (apply orb_true_iff in Hc; destruct Hc as [Hc|Hc]);
+          try (apply andb_true_iff in Hc; destruct Hc as [Hc _]; apply N.leb_le in Hc; lia);
+          try (apply N.eqb_eq in Hc; lia). apply N.leb_le in Hc. lia. }
+      assert (c <> 63).
+      { intros ->. discriminate. }
+      split; apply N.eqb_neq; lia. }
+    destruct H1 as [-> ->]. cbn [negb andb].
+    replace (60 :: c :: name ++ [47; 62]) with ((60 :: c :: name ++ [47]) ++ [62]).
+    + rewrite rev_unit. reflexivity.
+    + cbn [app]. rewrite <- app_assoc. reflexivity.
+  - rewrite !no_cr_app. rewrite (name_no_cr (c :: name)); [reflexivity|]. cbn [forallb]. rewrite Hc, Hn. reflexivity.
+Qed.
+
+Lemma toy_codec enc body b :
+  toy_encode enc (decl_of enc ++ body) = Some b -> toy_decode b = Some (decl_of enc ++ body).
+Proof.
+  unfold toy_encode, toy_decode. destruct (label_eqb enc L_ASCII).
+  - destruct (forallb _ _); [|discriminate]. intros H. injection H as <-. reflexivity.
+  - intros H. injection H as <-. reflexivity.
+Qed.
